@@ -47,6 +47,7 @@ type Harness struct {
 	Bounds   string   `json:"bounds"`
 	Stubs    []string `json:"stubs"`
 	Assumes  []string `json:"assumptions"`
+	Backend  string   `json:"backend"`   // "" (BV+FP) or "int"
 	NoNative bool     `json:"no_native"` // harness cannot run natively (engine-only stubs)
 	MinReach int      `json:"min_reach"`
 }
@@ -224,7 +225,7 @@ func runProperty(id, tier string, seed int, reg Registry, only string, workers i
 			continue
 		}
 		cfg := symex.ExploreConfig{Entry: fn, Workers: workers, MaxPaths: tc.MaxPaths, MaxSteps: h.MaxSteps,
-			Solver: h.Solver, TimeoutMs: h.Timeout, Params: tc.Params, KeepFuncs: true, SampleModels: 3, StopOnViol: 25}
+			Solver: h.Solver, TimeoutMs: h.Timeout, Params: tc.Params, IntMode: h.Backend == "int", KeepFuncs: true, SampleModels: 3, StopOnViol: 25}
 		if cfg.MaxPaths == 0 {
 			cfg.MaxPaths = 400000
 		}
